@@ -437,6 +437,236 @@ class AltBuilder(Builder):
         return super().build(e)
 
 
+
+# ---- the same trees with every user-supplied callable of another KIND.  The property speaks about "function
+# application and datasets" evaluating "to what the corresponding eager Python computation ... yields": the eager
+# computation calls the callable; which kind of Python callable it is (def, lambda, an instance with __call__, a
+# bound method, a classmethod / staticmethod, a class, a functools.partial object over any of these) and which kind
+# of parameter carries an argument expression (positional-or-keyword, keyword-only after a bare *, supplied through
+# defaults= / where() / lift(**kwargs) for a parameter without a default - also into **kwargs -, keyword-only
+# because a functools.partial bound an earlier parameter by keyword, bound by the functools.partial itself; for a
+# pipeline step also behind a positional-only input `x, /`) is not part of the statement.  Unsupported by labrea
+# itself and therefore outside: positional-only PARAMETERS carrying an expression and *args in a lifted signature
+# (TypeError on the unchanged library).  The Coq model has no notion of the kind of a Python callable: the trees
+# are the same terms, so this family is judged by the eager reference only.
+CALLABLE_KINDS = ("def", "lambda", "instance", "bound", "classmethod", "staticmethod", "class")
+UNARY_KINDS = CALLABLE_KINDS + ("partial", "partial_bound_argument", "partial_of_instance")
+FA_PARAM_KINDS = ("pk", "kwonly", "split", "supplied", "varkw", "partial_kw", "partial_pos", "partial_binds")
+STEP_PARAM_KINDS = ("pk", "kwonly", "split", "posx", "supplied", "partial_kw", "partial_pos", "partial_binds")
+KIND_SOURCES = {
+    "def": "def f({p}):\n    return {c}\n",
+    "lambda": "f = lambda {p}: {c}\n",
+    "instance": "class C:\n    def __call__(self, {p}):\n        return {c}\nf = C()\n",
+    "bound": "class C:\n    def m(self, {p}):\n        return {c}\nf = C().m\n",
+    "classmethod": "class C:\n    @classmethod\n    def m(cls, {p}):\n        return {c}\nf = C.m\n",
+    "staticmethod": "class C:\n    @staticmethod\n    def m({p}):\n        return {c}\nf = C.m\n",
+    "class": "class f:\n    def __new__(cls, {p}):\n        return {c}\n",
+}
+KIND_CONST = 7
+N_KIND_SPELLS = 40
+KIND_SPELL0 = 10
+
+
+def _lost():
+    raise AssertionError("a constant / bound parameter of the user's callable did not arrive")
+
+
+def kind_callable(rng, impl, evs, step):
+    """(callable, supplied, description): a Python callable of a random kind that computes impl([x,] a0, ..., an-1)
+    and declares the argument expressions `evs` as its parameters' defaults in a random way; `supplied`: the
+    defaults that are NOT in the signature and must be given through defaults= / where() / lift(**kwargs)"""
+    import functools
+    n = len(evs)
+    names = [f"a{i}" for i in range(n)]
+    ck = rng.choice(CALLABLE_KINDS)
+    pk = rng.choice(STEP_PARAM_KINDS if step else FA_PARAM_KINDS)
+    if n == 0 and pk in ("varkw", "partial_binds", "supplied"):
+        pk = "pk"
+    h = rng.randint(0, n)
+    ns = {"impl": impl, "CONST": KIND_CONST, "lost": _lost, "functools": functools}
+    for i, ev in enumerate(evs):
+        ns[f"D{i}"] = ev
+    dflt = [f"a{i}=D{i}" for i in range(n)]
+    lead = ["x"] if step else []
+    args = ", ".join(lead + names)
+    call, wrap, supplied = f"impl({args})", None, None
+    guarded = f"(impl({args}) if c == CONST else lost())"
+    if pk == "pk":
+        params = lead + dflt
+    elif pk == "kwonly":
+        params = lead + (["*"] if n else []) + dflt
+    elif pk == "split":
+        params = lead + dflt[:h] + (["*"] + dflt[h:] if h < n else [])
+    elif pk == "posx":
+        params = ["x", "/"] + dflt[:h] + (["*"] + dflt[h:] if h < n else [])
+    elif pk == "supplied":
+        params = lead + names[:h] + (["*"] + names[h:] if h < n else [])
+        supplied = dict(zip(names, evs))
+    elif pk == "varkw":
+        h = min(h, n - 1)
+        params = dflt[:h] + ["**kw"]
+        call = "impl(" + ", ".join(names[:h] + [f"kw['{a}']" for a in names[h:]]) + ")"
+        supplied = dict(zip(names[h:], evs[h:]))
+    elif pk == "partial_kw":
+        params = lead + dflt[:h] + ["c=0"] + dflt[h:]
+        call, wrap = guarded, "functools.partial(f, c=CONST)"
+    elif pk == "partial_pos":
+        params = ["c"] + lead + dflt
+        call, wrap = guarded, "functools.partial(f, CONST)"
+    else:   # partial_binds: no defaults in the definition, the functools.partial binds the expressions by keyword
+        params = lead + names
+        wrap = "functools.partial(f, " + ", ".join(f"a{i}=D{i}" for i in range(n)) + ")"
+    exec(KIND_SOURCES[ck].format(p=", ".join(params), c=call), ns)
+    f = ns["f"]
+    if wrap is not None:
+        f = eval(wrap, dict(ns, f=f))
+    return f, supplied, f"{ck}/{pk}"
+
+
+def unary_callable(rng, fn):
+    """the user function fn as a Python callable of a random kind, to be handed to labrea RAW (not wrapped in Value)"""
+    import functools
+    k = rng.choice(UNARY_KINDS)
+    if k == "partial":
+        return functools.partial(fn), k
+    if k == "partial_bound_argument":
+        return functools.partial(lambda m, *a: fn(*a) if m == KIND_CONST else _lost(), KIND_CONST), k
+    ns = {"impl": fn}
+    exec(KIND_SOURCES["instance" if k == "partial_of_instance" else k].format(p="*a", c="impl(*a)"), ns)
+    return (functools.partial(ns["f"]) if k == "partial_of_instance" else ns["f"]), k
+
+
+class KindBuilder(Builder):
+    def __init__(self, world, env, kbase):
+        import random
+        super().__init__(world, env)
+        self.rng = random.Random(7919 * kbase + 13)
+        self.used = []
+
+    def fn_or_build(self, e):
+        """an expression in a position where labrea accepts a bare callable (MaybeEvaluatable)"""
+        if e[0] == "fnvalue":
+            f, k = unary_callable(self.rng, self.w.fn(e[1]))
+            self.used.append("raw " + k)
+            return f
+        return self.build(e)
+
+    def lifted(self, fid, arg_exprs, step):
+        f, supplied, k = kind_callable(self.rng, self.w.fn(fid), [self.build(x) for x in arg_exprs], step)
+        self.used.append(k)
+        return f, supplied
+
+    def dataset(self, dsid):
+        if dsid in self.ds:
+            return self.ds[dsid]
+        from labrea import dataset, abstractdataset
+        from labrea.cache import NoCache
+        d = self.env[dsid]
+        if d.get("derived") is not None:
+            return super().dataset(dsid)
+        kw = {}
+        if d.get("dispatch") is not None:
+            kw["dispatch"] = self.build(d["dispatch"])
+        if d.get("options"):
+            kw["options"] = core.py_json(d["options"])
+        if d.get("default_options"):
+            kw["default_options"] = core.py_json(d["default_options"])
+        if d.get("callback") is not None:
+            kw["callback"] = self.fn_or_build(d["callback"])
+        if d.get("effects"):
+            kw["effects"] = [self.fn_or_build(e) for e in d["effects"]]
+        kw["cache"] = self.w.cache(dsid) if d.get("cache", "mem") == "mem" else NoCache()
+        if d.get("abstract"):
+            def _abstract():
+                pass
+            _abstract.__name__ = _abstract.__qualname__ = f"ds{dsid}"
+            obj = abstractdataset(_abstract, **kw)
+        else:
+            f, supplied = self.lifted(d["fid"], d.get("kwargs", []), False)
+            r = self.rng.random()
+            if supplied and r < 0.5:
+                obj = dataset(**kw).where(**supplied)(f)
+            elif supplied:
+                obj = dataset(f, defaults=supplied, **kw)
+            elif r < 0.5:
+                obj = dataset(**kw)(f)                  # the decorator-with-arguments form
+            else:
+                obj = dataset(f, **kw)
+        self.ds[dsid] = obj
+        for alias, impl in d.get("overloads", []):
+            if impl[0] == "call" and d.get("dispatch") is not None and self.rng.random() < 0.7:
+                # an implementation written as a function: the overload decorator (uncached, like every dataset here)
+                f, supplied = self.lifted(impl[1], impl[2], False)
+                fac = dataset.nocache
+                obj.overload(core.py_value(alias))(fac.where(**supplied)(f) if supplied else fac(f))
+            else:
+                obj.register(core.py_value(alias), self.build(impl))
+        if d.get("effects_disabled"):
+            obj.disable_effects()
+        return obj
+
+    def build(self, e):
+        L, k = self.L, e[0]
+        if k == "fnvalue":
+            from labrea.types import Value
+            f, kk = unary_callable(self.rng, self.w.fn(e[1]))
+            self.used.append("value " + kk)
+            return Value(f)
+        if k == "case":
+            c = L.case(self.build(e[1]))
+            for cond, r in e[2]:
+                c = c.when(self.fn_or_build(cond), self.build(r))
+            if e[3] is not None:
+                c = c.otherwise(self.build(e[3]))
+            return c
+        if k == "apply":
+            src, fn = self.build(e[1]), self.fn_or_build(e[2])
+            return src.apply(fn) if self.rng.random() < 0.5 else src >> fn
+        if k == "pipe":
+            from labrea.pipeline import Pipeline
+            p = Pipeline()
+            for st in e[1]:
+                p = p + self.fn_or_build(st)
+            return p
+        if k == "call":
+            from labrea.application import FunctionApplication
+            if self.rng.random() < 0.15:       # the explicit form, the argument expressions given positionally
+                f, kk = unary_callable(self.rng, self.w.fn(e[1]))
+                self.used.append("FunctionApplication(f, *args) " + kk)
+                return FunctionApplication(f, *[self.build(x) for x in e[2]])
+            f, supplied = self.lifted(e[1], e[2], False)
+            if supplied and self.rng.random() < 0.5:
+                return FunctionApplication.lift(**supplied)(f)      # the decorator-with-arguments form
+            return FunctionApplication.lift(f, **(supplied or {}))
+        if k == "pstep":
+            from labrea.application import PartialApplication
+            from labrea.pipeline import PipelineStep
+            f, supplied = self.lifted(e[1], e[2], True)
+            if supplied:
+                return PipelineStep(PartialApplication.lift(f, **supplied), f"step{e[1]}")
+            return L.pipeline_step(f)
+        return super().build(e)
+
+
+def kind_applies(scn, e):
+    for n in list(nodes(e)) + list(env_nodes(scn)):
+        if n[0] in ("fnvalue", "call", "pstep"):
+            return True
+        if n[0] == "dataset":
+            return True
+    return False
+
+
+def spelling_text(spell):
+    if spell >= KIND_SPELL0:
+        return (f"every user-supplied callable of another kind (def / lambda / instance with __call__ / bound method / classmethod / "
+                f"staticmethod / class / functools.partial) and its argument expressions declared through another kind of parameter "
+                f"(keyword-only, supplied through defaults= / where() / lift(**kwargs), **kwargs, bound or made keyword-only by a "
+                f"functools.partial, behind a positional-only input); predicates, applied functions, callbacks and pipeline steps handed "
+                f"over as bare callables; rotation {spell - KIND_SPELL0}")
+    return SPELLINGS[spell]
+
+
 def alt_applies(scn, e, spell):
     kinds = ALT_KINDS[spell]
     def ds_has_dispatch(n):
@@ -454,7 +684,8 @@ def alt_case(scn, idx, o, spell, stats=None, model_agrees=True):
     """the oracle on the tree built through spelling `spell`, and on the shared bases it extended"""
     v = oracle_case(scn, idx, o, stats, model_agrees, spell=spell)
     if v is not None:
-        return dict(v, desc=v["desc"] + f" [the tree built through another public spelling: {SPELLINGS[spell]}]")
+        return dict(v, desc=v["desc"] + f" [the tree built through another public spelling: {spelling_text(spell)}]",
+                    **({"callable_kinds": list(built(scn, scn["exprs"][idx], spell)[1].used)} if spell >= KIND_SPELL0 else {}))
     _, b = built(scn, scn["exprs"][idx], spell)
     for be, bobj in getattr(b, "bases", [])[:3]:
         one = dict(scn, exprs=[be])
@@ -476,7 +707,9 @@ def built(scn, e, spell=0):
     if key not in _BUILT:
         if len(_BUILT) > 20000:
             _BUILT.clear()
-        b = Builder(core.World(scn["ftable"]), scn["env"]) if spell == 0 else AltBuilder(core.World(scn["ftable"]), scn["env"], spell)
+        w_ = core.World(scn["ftable"])
+        b = (Builder(w_, scn["env"]) if spell == 0 else KindBuilder(w_, scn["env"], spell - KIND_SPELL0) if spell >= KIND_SPELL0
+             else AltBuilder(w_, scn["env"], spell))
         _BUILT[key] = (b.build(e), scn["ftable"], scn["env"], e, b)
     return _BUILT[key][0], _BUILT[key][4]
 
@@ -1328,8 +1561,8 @@ def run(ctx):
 
     ostats, distinct, kinds = {"dataset_history": hstats}, set(), {}
     samples = []
-    alt_st = {}
-    n_alt, t_alt = 0, 0.0
+    alt_st, kind_st = {}, {}
+    n_alt, t_alt, n_kind, t_kind = 0, 0.0, 0, 0.0
     for gname, g in groups + [("extras", extra_scns)]:
         st = {}
         for si_, s in enumerate(g):
@@ -1344,7 +1577,21 @@ def run(ctx):
                     violations.append(dict(v, group=gname))
                 # the same tree through another public spelling (one spelling per case, rotating; the large enumerated group:
                 # every third case in the quick tier)
-                if gname in ("lazy", "extras") or (q and gname == "enumerated" and (si_ + oi_) % 3):
+                if gname in ("lazy", "extras"):
+                    continue
+                # the same tree with every user-supplied callable of another kind (one rotation per expression: the
+                # built graph serves all its dictionaries; the large enumerated group: every third case in the quick tier)
+                if not (q and gname == "enumerated" and (si_ + oi_) % 3 != 1):
+                    if (i, "kind") not in applies:
+                        applies[(i, "kind")] = kind_applies(s, e)
+                    if applies[(i, "kind")]:
+                        n_kind += 1
+                        t_a = time.time()
+                        v = alt_case(s, i, o, KIND_SPELL0 + (si_ * 7 + i) % N_KIND_SPELLS, kind_st, model_agrees=id(s) not in disagreeing)
+                        t_kind += time.time() - t_a
+                        if v is not None:
+                            violations.append(dict(v, group=gname + "/callable kinds"))
+                if q and gname == "enumerated" and (si_ + oi_) % 3:
                     continue
                 spell = 1 + (si_ + i + oi_) % 3
                 if (i, spell) not in applies:
@@ -1358,6 +1605,7 @@ def run(ctx):
                         violations.append(dict(v, group=gname + "/other spelling"))
         ostats[gname] = st
     ostats["other_spellings"] = alt_st
+    ostats["callable_kinds"] = kind_st
     for s in (enum_scns[len(enum_scns) // 2], shape_scns[0], rand_scns[0]):
         i, o = s["ops"][0][1], s["ops"][0][4]
         samples.append(dict(expr=repr(s["exprs"][i])[:300], options=repr(o), labrea=repr(impl_outcome(s, s["exprs"][i], o))[:200],
@@ -1365,7 +1613,7 @@ def run(ctx):
     checked = sum(st.get("checked", 0) for st in ostats.values())
     cstats["dataset_history_ops_results_only"] = len(hist_scns)
     lib.log(f"[C05] eager reference vs implementation: {checked} cases, {len(violations)} failures, {time.time() - t0:.1f}s "
-            f"(of which other spellings: {n_alt} cases, {t_alt:.1f}s)")
+            f"(of which other spellings: {n_alt} cases, {t_alt:.1f}s; callable kinds: {n_kind} cases, {t_kind:.1f}s)")
     return {
         "evaluations": cstats["ops"] + checked,
         "distinct_nontrivial": len(distinct),
@@ -1394,7 +1642,12 @@ def run(ctx):
                 "sibling groups built through the other public spellings of each combinator (case-when: default first, default in the "
                 "middle, CaseWhen(...); the shared bases that were extended are evaluated too; switch: Switch(...), Overloaded(...), "
                 "Overloaded + register; coalesce(); >>; p += step, right-nested +; WithDefaultOptions; datasets: set_dispatch / register / "
-                "overload after the definition, in both orders)",
+                "overload after the definition, in both orders); callable kinds: the same groups built with every user-supplied callable of "
+                "another kind (def / lambda / instance with __call__ / bound method / classmethod / staticmethod / class / functools.partial) and "
+                "its argument expressions declared through another kind of parameter (keyword-only, mixed, supplied through defaults= / where() / "
+                "lift(**kwargs) incl. **kwargs, bound or made keyword-only by a functools.partial, behind a positional-only input): dataset "
+                "definitions, overload decorator, FunctionApplication.lift, pipeline steps; predicates, applied functions, callbacks and steps "
+                "handed over as bare callables (one of 40 rotations per expression, all its dictionaries)",
         "samples": samples,
         "traces_validated_against_impl": cstats["ops"],
         "correspondence_mismatches": mism[:5],
@@ -1402,7 +1655,8 @@ def run(ctx):
         "known": known_witnesses(),
         "distribution": dict(correspondence=cstats, oracle=ostats, enumerated_trees_by_size=by_size, root_kinds=kinds,
                              scenarios={n: len(g) for n, g in groups + [("extras", extra_scns)]},
-                             dataset_histories=len(histories), dataset_history_evaluations=len(hist_scns), other_spelling_cases=n_alt),
+                             dataset_histories=len(histories), dataset_history_evaluations=len(hist_scns), other_spelling_cases=n_alt,
+                             callable_kind_cases=n_kind),
         "exhaustive": True,
         "assumptions": ["user functions are deterministic and consume (force) their arguments",
                         "dispatch values are hashable; dictionary/switch keys pairwise distinct under ==; no templated option values "
@@ -1436,7 +1690,7 @@ def replay(ctx, payload):
     if payload.get("spelling"):
         scn = cp.load_scn(payload["scenario_repr"])
         v = alt_case(scn, 0, scn["ops"][0][4], payload["spelling"])
-        return v is not None, dict(oracle=v, spelling=SPELLINGS[payload["spelling"]])
+        return v is not None, dict(oracle=v, spelling=spelling_text(payload["spelling"]))
     reprs = [payload["scenario_repr"]] if "scenario_repr" in payload else [
         b["scenario_repr"] for b in payload.get("broken", []) if isinstance(b, dict) and "scenario_repr" in b]
     if not reprs:
